@@ -13,6 +13,7 @@ type World struct {
 	stores map[*Value]*KV
 	parent *World
 	Events []Value
+	Guard  *Term // non-nil while the harness builds conditionally present cells
 }
 
 type KV struct {
@@ -20,8 +21,16 @@ type KV struct {
 }
 
 type Cell struct {
-	key []Value
-	val Value
+	key     []Value
+	val     Value
+	present *Term // nil => certainly present
+}
+
+func (c *Cell) presentT() *Term {
+	if c.present == nil {
+		return True
+	}
+	return c.present
 }
 
 type CtxData struct {
@@ -286,7 +295,18 @@ func (in *Interp) kvGet(kv *KV, key []Value, pos token.Pos) Value {
 	if i < 0 {
 		return Slice{}
 	}
-	return DeepCopy(kv.cells[i].val)
+	c := kv.cells[i]
+	v := DeepCopy(c.val)
+	if c.present != nil {
+		if sv, ok := v.(Slice); ok {
+			return MaybeNil{S: sv, Nil: Not(c.present)}
+		}
+		if in.E.Branch(c.present, "store-presence") {
+			return v
+		}
+		return Slice{}
+	}
+	return v
 }
 
 func (in *Interp) kvSet(kv *KV, key []Value, val Value, pos token.Pos) {
@@ -301,6 +321,14 @@ func (in *Interp) kvSet(kv *KV, key []Value, val Value, pos token.Pos) {
 	copy(k, key)
 	cell := &Cell{key: k, val: DeepCopy(val)}
 	i := in.kvFind(kv, key)
+	if g := in.World.Guard; g != nil {
+		if i >= 0 {
+			in.unsupp("guarded write over an existing store cell")
+		}
+		cell.present = g
+		kv.cells = append(kv.cells, cell)
+		return
+	}
 	if i >= 0 {
 		kv.cells[i] = cell
 		return
@@ -313,6 +341,9 @@ func (in *Interp) kvDelete(kv *KV, key []Value, pos token.Pos) {
 		in.goPanic(pos, "key is nil or empty", nil)
 	}
 	in.noSpec("store delete")
+	if in.World.Guard != nil {
+		in.unsupp("guarded delete")
+	}
 	i := in.kvFind(kv, key)
 	if i >= 0 {
 		kv.cells = append(kv.cells[:i:i], kv.cells[i+1:]...)
@@ -323,6 +354,31 @@ type kvIter struct {
 	items []*Cell
 	pos   int
 	open  bool
+}
+
+// validT: some candidate at or after pos is present.
+func (it *kvIter) validT() *Term {
+	var cs []*Term
+	for j := it.pos; j < len(it.items); j++ {
+		if it.items[j].present == nil {
+			return True
+		}
+		cs = append(cs, it.items[j].present)
+	}
+	return Or(cs...)
+}
+
+// settle advances pos to the first present candidate (forking on presence);
+// returns false when the iterator is exhausted.
+func (in *Interp) settle(it *kvIter) bool {
+	for it.pos < len(it.items) {
+		c := it.items[it.pos]
+		if c.present == nil || in.E.Branch(c.present, "iter-presence") {
+			return true
+		}
+		it.pos++
+	}
+	return false
 }
 
 // kvRange builds an ordered snapshot of the cells selected by sel.
